@@ -699,7 +699,9 @@ Qed.
 Lemma n_reset_st_same n s : st_same s (n_reset n s).
 Proof.
   unfold n_reset. apply fold_st_same. intros s0 m. unfold m_reset.
-  eapply st_same_trans; apply fold_st_same; intros; apply reset_sig_st_same.
+  assert (R : forall L s1, st_same s1 (fold_left (fun s2 r => reset_sig r s2) L s1)).
+  { intros L s1. apply (fold_st_same (fun s2 r => reset_sig r s2)). intros; apply reset_sig_st_same. }
+  eapply st_same_trans; apply R.
 Qed.
 Lemma analytical_st_same c blk inps : forall outps iout rand s,
   st_same s (a_store (analytical c blk inps outps iout rand s)).
@@ -741,4 +743,68 @@ Proof.
   intros Hg. cbn [analytical]. rewrite Hg. destruct (make_seed c iout output rand) as [df rand'] eqn:E. cbn [fst].
   cbn [a_f0 a_dx a_df hd]. split; [reflexivity|split; [reflexivity|]].
   intros [Hq|Hk]; [rewrite Hq|rewrite Hk, andb_false_r]; reflexivity.
+Qed.
+
+(* a root that is not an output of any module of the sub-network is not written by its response *)
+Lemma set_states_other rs : forall vs s j, Forall (fun r => s_root r <> j) rs ->
+  st (getsig (set_states rs vs s) j) = st (getsig s j).
+Proof.
+  induction rs as [|r rs IH]; intros vs s j H; [destruct vs; reflexivity|].
+  inversion H as [|? ? Hr Hrs]; subst. destruct vs as [|[v|] vs]; cbn [set_states]; [reflexivity| |].
+  - rewrite (IH vs _ j Hrs). apply set_state_other; exact Hr.
+  - rewrite (IH vs _ j Hrs). destruct (s_slice r); [reflexivity|apply put_st_other; exact Hr].
+Qed.
+
+Theorem resp_pres_not_output blk j :
+  Forall (fun m => Forall (fun r => s_root r <> j) (m_out m)) blk -> resp_pres blk j.
+Proof.
+  intros H s. revert s. unfold n_response. induction H as [|m blk Hm Hblk IH]; intros s; cbn [fold_left]; [reflexivity|].
+  rewrite IH. unfold m_response. apply set_states_other; exact Hm.
+Qed.
+
+(* ------------------------------------------------------------------ decidable equality on data (for examples) *)
+Definition k_eqb (a b : K) : bool := Qc_eqb (fst a) (fst b) && Qc_eqb (snd a) (snd b).
+Lemma Qc_eqb_sound a b : Qc_eqb a b = true -> a = b.
+Proof. unfold Qc_eqb. intros H. apply Qc_is_canon. apply Qeq_bool_eq. exact H. Qed.
+Lemma k_eqb_sound a b : k_eqb a b = true -> a = b.
+Proof.
+  unfold k_eqb. intros H. apply andb_true_iff in H as [H1 H2]. apply k_eq; apply Qc_eqb_sound; assumption.
+Qed.
+Fixpoint kl_eqb (a b : list K) : bool :=
+  match a, b with
+  | [], [] => true
+  | x :: a', y :: b' => k_eqb x y && kl_eqb a' b'
+  | _, _ => false
+  end.
+Lemma kl_eqb_sound a : forall b, kl_eqb a b = true -> a = b.
+Proof.
+  induction a as [|x a IH]; intros [|y b] H; cbn in H; try discriminate; auto.
+  apply andb_true_iff in H as [H1 H2]. f_equal; [apply k_eqb_sound; exact H1|apply IH; exact H2].
+Qed.
+
+(* ------------------------------------------------------------------ which entries are perturbed, and in which order *)
+Lemma perturb_entries_skip c blk si iin outps f0 df dxan x k ks s :
+  kzero (nth k (v_dat x) k0) && c_keepzero c && is_arr x = true ->
+  perturb_entries c blk si iin outps f0 df dxan x (k :: ks) s = perturb_entries c blk si iin outps f0 df dxan x ks s.
+Proof. intros H. cbn [perturb_entries]. rewrite H. reflexivity. Qed.
+
+Lemma perturb_entries_step c blk si iin outps f0 df dxan x k ks s :
+  kzero (nth k (v_dat x) k0) && c_keepzero c && is_arr x = false ->
+  let x0 := nth k (v_dat x) k0 in
+  let sf := if c_rel c && negb (Qc_eqb (kabs x0) 0) then kabs x0 else 1 in
+  let s2 := n_response blk (set_state si (with_entry x k (kaddr x0 (c_dx c * sf))) s) in
+  let s3 := set_state si (with_entry x k x0) s2 in
+  let s5 := n_response blk (set_state si (with_entry x k (kaddi x0 (c_dx c * sf))) s3) in
+  let s6 := if v_cx x then set_state si (with_entry x k x0) s5 else s3 in
+  snd (perturb_entries c blk si iin outps f0 df dxan x (k :: ks) s) =
+    collect false x0 c sf iin k outps f0 df dxan s2 ++
+    (if v_cx x then collect true x0 c sf iin k outps f0 df dxan s5 else []) ++
+    snd (perturb_entries c blk si iin outps f0 df dxan x ks s6) /\
+  fst (perturb_entries c blk si iin outps f0 df dxan x (k :: ks) s) =
+    fst (perturb_entries c blk si iin outps f0 df dxan x ks s6).
+Proof.
+  intros H. cbn zeta. cbn [perturb_entries]. rewrite H.
+  destruct (v_cx x);
+    match goal with |- context [perturb_entries ?a ?b ?c0 ?d ?e ?f ?g ?h ?i ks ?j] =>
+      destruct (perturb_entries a b c0 d e f g h i ks j) as [s7 rest] end; cbn [fst snd]; split; reflexivity.
 Qed.
